@@ -25,6 +25,13 @@ ASSUMPTIONS = [
     "the wording of exception messages",
     "library axioms (struct.pack/unpack, BytesIO.read/tell, str/bytes methods, itertools.tee/zip_longest, "
     "ipaddress.IPv4Address, os.urandom) are trusted and sampled against CPython only through the cross-check",
+    "regular expressions: pattern parsed by CPython's re._parser, matched by pyvc/rx.py (greedy backtracking over literal characters, "
+    "symbolic casings and decimal numerals whose digit count is decided on the path); differential-tested against re, not proved",
+    "memoryview(bytes) behaves as the bytes; str.format / printf-style %d %s with symbolic arguments build the same text as f-strings",
+    "loop cut points: every local the loop assigns is havocked (by type) unless the loop contract gives it in solved form; the package's "
+    "module and class namespaces are restored (shallowly) before every path, so state left by another path or instance does not leak",
+    "an unmodelled builtin, library attribute, imported library name or decorator makes the paths that use it out of reach (bounded "
+    "native run instead), it never raises inside the engine",
 ]
 
 
